@@ -1,5 +1,7 @@
 """Child process for C17: writes a process-tensor file and dies at a chosen
-point.  usage: crash_writer.py <repo> <file> <writer> <mode> <k> <N>
+point.  usage: crash_writer.py <repo> <file> <writer> <mode> <k> <N> [<rename_at>]
+ rename_at: after the rename_at-th completed tensor write the name and the description of every open file-backed
+            process tensor are assigned (a metadata update on a file that is still being written); 0 = never
  writer: export | pttempo      mode: count | none | kill | _exit | exc | flushkill
  k: die after the k-th completed tensor write (k>=1), or k=-1: at entry of close()"""
 import os
@@ -8,6 +10,7 @@ import sys
 import warnings
 
 repo, fn, writer, mode, k, N = sys.argv[1], sys.argv[2], sys.argv[3], sys.argv[4], int(sys.argv[5]), int(sys.argv[6])
+RENAME_AT = int(sys.argv[7]) if len(sys.argv) > 7 else 0
 BIG = N >= 100          # N = 100 + steps: large tensors (bond dimension 64) so that HDF5 itself flushes while writing
 N = N % 100
 BOND = 64 if BIG else 3
@@ -41,6 +44,12 @@ orig_set = P._set_data_and_shape
 def wrapped(step, data, shape, tensor):
     orig_set(step, data, shape, tensor)
     cnt[0] += 1
+    if RENAME_AT and cnt[0] == RENAME_AT:
+        import gc
+        for o in gc.get_objects():
+            if isinstance(o, P.FileProcessTensor) and o._f:
+                o.name = "renamed while writing"
+                o.description = "described while writing"
     if mode not in ("count", "none") and cnt[0] == k:
         die()
 
